@@ -248,6 +248,41 @@ def check_e2e(ctx, s, env, near=False):
         ctx.case(s, nontrivial=False)
 
 
+def check_two_styles(ctx, s, env):
+    """The same text quoted and plain in one document, both orders: the
+    quoted one is a string, the plain one is typed by the resolver (a
+    resolution remembered per text would confuse them)."""
+    if not s or s != s.strip() or any(c in s for c in '\'"\\\n#,[]{}:&*!|>%@`'):
+        return
+    tag = env.tag_of(s)
+    if tag not in (S.TAG_FLOAT, S.TAG_BOOL):
+        return
+    for text, qi in (('["%s", %s]\n' % (s, s), 0), ('[%s, "%s"]\n' % (s, s), 1),
+                     ("[%s, '%s', %s]\n" % (s, s, s), 1)):
+        ctx.count('e2e_two_styles')
+        try:
+            v = env.load_seq(text)
+        except Exception as e:      # noqa
+            ctx.violation(
+                'C09 e2e two-styles load-raised %s' % type(e).__name__,
+                'document %r raised %s: %s' % (text, type(e).__name__,
+                                              str(e)[-120:]),
+                {'s': s, 'two': 1})
+            return
+        want_t = float if tag == S.TAG_FLOAT else bool
+        for i, x in enumerate(v):
+            if i == qi:
+                ok = type(x) is str and x == s
+            else:
+                ok = type(x) is want_t
+            if not ok:
+                ctx.violation(
+                    'C09 e2e two-styles %s-item-typed-as-%s' % (
+                        'quoted' if i == qi else 'plain', type(x).__name__),
+                    'document %r loads as %r' % (text, v), {'s': s, 'two': 1})
+                return
+
+
 def check_nonspecific(ctx, s, env):
     """`! "<s>"`: PyYAML resolves a scalar with the non-specific tag like a
     plain one, whatever characters it holds."""
@@ -400,6 +435,35 @@ def shard(ctx):
             ctx.count('line_break_variants')
             check_resolver(ctx, s, env)
             check_nonspecific(ctx, s, env)
+        if ctx.mine(k):
+            check_two_styles(ctx, w, env)
+    # signed .nan: whether it is a float is left open, but what it resolves
+    # to must agree with what is constructed
+    for k2, w in enumerate([sg + n for sg in '+-' for n in S.NAN_WORDS]):
+        if not ctx.mine(k2):
+            continue
+        tag = env.tag_of(w)
+        for text, pick in ((w + '\n', lambda v: v),
+                           ('k: %s\n' % w, lambda v: v['k']),
+                           ('[%s]\n' % w, lambda v: v[0])):
+            ctx.count('signed_nan_consistency')
+            try:
+                v = pick(env.load_any(text))
+            except Exception as e:      # noqa
+                ctx.violation(
+                    'C09 e2e resolved-vs-constructed signed-nan %s' % type(
+                        e).__name__,
+                    '%r resolves to %s but loading %r raised %s: %s' % (
+                        w, tag, text, type(e).__name__, str(e)[-120:]),
+                    {'s': w})
+                break
+            if (tag == S.TAG_FLOAT) != (type(v) is float) or (
+                    tag == S.TAG_STR) != (type(v) is str):
+                ctx.violation(
+                    'C09 e2e resolved-vs-constructed signed-nan type',
+                    '%r resolves to %s but loads as %r' % (w, tag, v),
+                    {'s': w})
+                break
     for _ in range(ctx.budget(100000, 1000000)):
         s = random_long(ctx.rng)
         interesting, tag = check_resolver(ctx, s, env)
@@ -413,7 +477,9 @@ def shard(ctx):
 def replay(ctx, case):
     env = get_env()
     check_resolver(ctx, case['s'], env)
-    if case.get('ns'):
+    if case.get('two'):
+        check_two_styles(ctx, case['s'], env)
+    elif case.get('ns'):
         check_nonspecific(ctx, case['s'], env)
     else:
         check_e2e(ctx, case['s'], env)
